@@ -2,6 +2,7 @@ import AasVerif.Lemmas.Base64
 import AasVerif.Lemmas.SdkRound
 import AasVerif.Lemmas.SdkTotal
 import AasVerif.Lemmas.SdkTyped
+import AasVerif.Lemmas.XmlText
 /-!
 # C10 — Python SDK serialization round-trips and rejects bad documents
 
@@ -114,6 +115,24 @@ concrete descendants of the declared class). Depends on the regenerated `Gen.Sdk
 theorem fromJson_welltyped (mm : MM) (hwf : mm.wf = true) (c : Name) (j : Json) (v : Val)
     (h : fromJson mm c j = .ok v) : conformsNN mm (.cls c) v = true :=
   readVal_welltyped mm hwf j (.cls c) v h
+
+/-! ## XML character data -/
+
+/-- A string of XML 1.0 `Char`s (carriage returns included) written by the regenerated
+`_escape_and_write_text` chain is handed back unchanged by an XML 1.0 parser (end-of-line
+normalisation, predefined entities, character references). -/
+theorem xml_text_roundtrip (s : Text) (h : ∀ c ∈ s, XmlText.isChar c = true) :
+    XmlText.content (XmlText.escape s) = some s :=
+  XmlText.content_escape s 0 h
+
+/-- Why the carriage-return step of the chain is needed: with the three classic replacements only
+(the table before the repair) `"a\rb"` comes back as `"a\nb"`. -/
+theorem xml_text_without_cr_step_loses_cr :
+    XmlText.content (XmlText.escapeWith
+      [(38, [38, 97, 109, 112, 59]), (60, [38, 108, 116, 59]), (62, [38, 103, 116, 59])] [97, 13, 98])
+      = some [97, 10, 98] := by decide
+
+example : (∀ c ∈ ([97, 13, 10, 38, 60, 62, 0x1F600] : Text), XmlText.isChar c = true) := by decide
 
 /-! Non-vacuity: a well-formed meta-model with a hierarchy, and an instance of a descendant that
 meets the hypotheses of `json_roundtrip`, `json_roundtrip_via_parent`. -/
